@@ -139,8 +139,10 @@ class DeployEngine(object):
             if xy != m.root and t.chance(p_dead_chip):
                 ch.dead = True
                 w.probe("dead_chip")
+                w.fault("dead_chip")
             elif xy != m.root and t.chance(0.02):
                 ch.unresponsive = "silent"
+                w.fault("unresponsive_chip")
             for p in range(1, n):
                 if t.chance(0.06):
                     ch.cores[p].state = ST_RUN
@@ -151,6 +153,7 @@ class DeployEngine(object):
             for l in range(6):
                 if t.chance(p_dead_link):
                     ch.links_up.discard(l)
+                    w.fault("dead_link")
                     n = m.neighbour(xy[0], xy[1], l)
                     if n is not None and t.draw(3):
                         n.links_up.discard((l + 3) % 6)
